@@ -148,8 +148,9 @@ type ioOp struct {
 	acked       bool
 	rwHolders   int // replicas listed RW at that moment that hold it
 	attachedN   int
-	coldStarts0 int // cold-start elections seen so far
-	holdersN    int // attached replicas (RW or WO) that had applied it when it was acknowledged
+	coldStarts0 int             // cold-start elections seen so far
+	holdersN    int             // attached replicas (RW or WO) that had applied it when it was acknowledged
+	applied     map[string]bool // which replicas held the write's data when it was judged (acknowledged or not)
 	// set when a write that was NOT acknowledged is judged (for the D23 classifier)
 	woAppliers []string // replicas that were WO (rebuilding) at that moment and applied it
 }
@@ -1159,6 +1160,7 @@ func (cr *clRun) judgeIO(o *ioOp) {
 	}
 	if o.kind == "w" && o.n > 0 {
 		applied := cr.appliedBy(o)
+		o.applied = applied
 		na := 0
 		for _, a := range attached {
 			if applied[a] {
@@ -1326,6 +1328,15 @@ func (cr *clRun) judgeIO(o *ioOp) {
 					clause += "/write-held-by-minority-of-rf"
 					why += cr.d26Note(w)
 				}
+				if !strings.Contains(clause, "/") {
+					for _, rn := range cr.c.reps {
+						if w := cr.punchedThenRebuilt(rn.addr, bad); w != nil {
+							clause += "/punched-snapshot-not-resynced"
+							why += cr.d28Note(w, rn.name)
+							break
+						}
+					}
+				}
 				cr.viol("C04", clause, "read %d off=%d len=%d: %s", o.idx, o.off, o.n, why)
 				return
 			}
@@ -1478,6 +1489,34 @@ func (cr *clRun) ackedByMinorityOfRF(s int64) *ioOp {
 		}
 	}
 	return nil
+}
+
+// punchedThenRebuilt recognises known finding D28: sector s of replica addr lost an acknowledged
+// value although addr had held it. addr (a replica that has been through a rebuild, so reclamation
+// is on) later applied a write o into the same 4 KiB block: the merged block went to its head and
+// the old copy was punched out of the automatic snapshot below. Then addr left and was rebuilt
+// again: its head is discarded, and the file sync SKIPS every snapshot whose per-disk revision
+// counter equals the source's (sync.isRevisionCountSame) - the punched snapshot is not re-copied,
+// and the block reads as zeros.
+func (cr *clRun) punchedThenRebuilt(addr string, s int64) *ioOp {
+	if s < 0 || s >= int64(len(cr.m.val)) {
+		return nil
+	}
+	b0, b1 := (s/8)*8*sect, (s/8+1)*8*sect
+	cur := int(cr.m.val[s]>>32) - 1 // the write whose value is expected there (-1: never written)
+	for _, o := range cr.ios {
+		if o.data == nil || o.n == 0 || !o.applied[addr] || o.idx <= cur {
+			continue
+		}
+		if o.off < b1 && o.off+o.n > b0 && cr.epoch[addr] > o.epochs[addr] {
+			return o
+		}
+	}
+	return nil
+}
+
+func (cr *clRun) d28Note(w *ioOp, addr string) string {
+	return fmt.Sprintf(" [%s had applied write %d (off=%d len=%d, acknowledged=%v) into this block, which punches the block's old copy out of its automatic snapshot; it has been rebuilt since and the punched snapshot was not copied again]", addr, w.idx, w.off, w.n, w.acked)
 }
 
 func (cr *clRun) d26Note(w *ioOp) string {
@@ -1767,6 +1806,9 @@ func (cr *clRun) settle() {
 				} else if w := cr.ackedByMinorityOfRF(bad); w != nil {
 					clause += "/write-held-by-minority-of-rf"
 					why += cr.d26Note(w)
+				} else if w := cr.punchedThenRebuilt(rn.addr, bad); w != nil {
+					clause += "/punched-snapshot-not-resynced"
+					why += cr.d28Note(w, rn.name)
 				}
 				cr.viol("C02", clause, "replica %s is listed RW but its image disagrees with the acknowledged writes: %s", rn.name, why)
 				return
